@@ -7,8 +7,15 @@ Import ListNotations.
    produced object for every attribute, without key and with every key of [qkeys]
    (strict and non strict) *)
 Inductive case :=
-| Read (rows : list (list cval)) (rules : list rule) (nid : nat) (stop : str)
+(* the worksheet is titled [wst]; the object class is called XlGen *)
+| Read (wst : str) (rows : list (list cval)) (rules : list rule) (nid : nat) (stop : str)
        (ladder : bool) (qkeys : list str)
+(* XlsTableReader(rules_1, ..., rules_n).iter_table on a worksheet titled [wst]: several object classes
+   (name, rules, _NUM_ID_ATTRS) read from one table, every row yields a tuple; afterwards the caller edits
+   values of produced objects in place ([muts]: index of the object in the row-by-row list of all objects,
+   attribute, inner key, marker -- Session.OMut) and every object is observed at the END *)
+| ReadM (wst : str) (rows : list (list cval)) (objs : list (str * (list rule * nat))) (stop : str)
+        (ladder : bool) (qkeys : list str) (muts : list (nat * nat * option str * str))
 (* a session: several readings in one process (any entry point: iter_table, read_table, a shared
    XlsObjReadRules, the TableReader mixin of a class hierarchy) and in-place modifications of
    values of produced objects in between; every object of every reading is observed at the END *)
@@ -44,13 +51,54 @@ Definition sx_obj (qkeys : list str) (o : obj) : sx :=
       (seq 0 (length (o_attrs o)))
       ++ [sx_res sx_str (get_attr_origin o None None true)]).
 
+(* ... and what depends on the worksheet title: str(obj) up to the logic id, get_attr_origin(..., incl_ws=True)
+   for every attribute (without key; with every key, not strict) and for an unknown attribute *)
+Definition sx_obj_ws (cname wst : str) (qkeys : list str) (o : obj) : sx :=
+  SL [ sx_obj qkeys o;
+       sx_str (obj_head cname wst o);
+       SL (map (fun i =>
+             SL [ sx_res sx_str (get_attr_origin_ws o wst (Some i) None true true);
+                  SL (map (fun k => sx_res sx_str (get_attr_origin_ws o wst (Some i) (Some k) true false)) qkeys) ])
+           (seq 0 (length (o_attrs o))));
+       sx_res sx_str (get_attr_origin_ws o wst None None true true) ].
+
+Definition xlgen : str := [88; 108; 71; 101; 110].
+
+(* a reading of several object classes and the caller's edits, as a session *)
+Definition multi_ops (rows : list (list cval)) (objs : list (str * (list rule * nat))) (stop : str)
+           (ladder : bool) (qkeys : list str) (muts : list (nat * nat * option str * str)) : list op :=
+  OReadM (mkMConfig (map snd objs) stop ladder) rows qkeys
+  :: map (fun m => match m with (j, a, inner, mk) => OMut 0 j a inner mk end) muts.
+
+(* the objects of a multi reading, row by row, each with the name of its class *)
+Fixpoint with_names {A} (names : list str) (cur : list str) (items : list A) (fuel : nat) : list (str * A) :=
+  match items, fuel with
+  | [], _ => []
+  | _, O => []
+  | x :: r, S f =>
+      match cur with
+      | n :: cur' => (n, x) :: with_names names cur' r f
+      | [] => match names with
+              | n :: cur' => (n, x) :: with_names names cur' r f
+              | [] => []
+              end
+      end
+  end.
+
 (* full observation (used when debugging a disagreement) *)
 Definition run_full (c : case) : sx :=
   match c with
-  | Read rows rules nid stop ladder qkeys =>
-      let (items, e) := read_table (mkConfig rules nid stop ladder) rows in
-      SL [ SL (map (sx_option (sx_obj qkeys)) items);
+  | Read wst rows rules nid stop ladder qkeys =>
+      let (items, e) := iter_table_fn (mkConfig rules nid stop ladder) rows in
+      SL [ SL (map (sx_option (sx_obj_ws xlgen wst qkeys)) items);
            sx_option (fun e => SZ (err_code e)) e ]
+  | ReadM wst rows objs stop ladder qkeys muts =>
+      let n := length (fst (read_table_m (mkMConfig (map snd objs) stop ladder) rows)) in
+      SL (SZ (Z.of_nat n) ::
+          map (fun rd => SL [ SL (map (fun p => sx_option (sx_obj_ws (fst p) wst qkeys) (snd p))
+                                      (with_names (map fst objs) [] (rd_items rd) (length (rd_items rd))));
+                              sx_option (fun e => SZ (err_code e)) (rd_err rd) ])
+              (run_session (multi_ops rows objs stop ladder qkeys muts)))
   | Session ops =>
       SL (map (fun rd => SL [ SL (map (sx_option (sx_obj (rd_qkeys rd))) (rd_items rd));
                               sx_option (fun e => SZ (err_code e)) (rd_err rd) ])
@@ -77,13 +125,25 @@ Fixpoint hash_sx (s : sx) (h : Z) {struct s} : Z :=
 
 Definition run (c : case) : sx :=
   match c with
-  | Read rows rules nid stop ladder qkeys =>
-      let (items, e) := read_table (mkConfig rules nid stop ladder) rows in
+  | Read wst rows rules nid stop ladder qkeys =>
+      (* the module-level iter_table = XlsTableReader(rules).iter_table unpacked
+         (LemmasMulti.read_table_one: iter_table_fn cf sh = read_table cf sh) *)
+      let (items, e) := iter_table_fn (mkConfig rules nid stop ladder) rows in
       SL [ SL (map (fun it => match it with
                               | None => SL [SZ 0]
-                              | Some o => SZ (hash_sx (sx_obj qkeys o) 1)
+                              | Some o => SZ (hash_sx (sx_obj_ws xlgen wst qkeys o) 1)
                               end) items);
            sx_option (fun e => SZ (err_code e)) e ]
+  | ReadM wst rows objs stop ladder qkeys muts =>
+      let n := length (fst (read_table_m (mkMConfig (map snd objs) stop ladder) rows)) in
+      SL (SZ (Z.of_nat n) ::
+          map (fun rd => SL [ SL (map (fun p => match snd p with
+                                                | None => SL [SZ 0]
+                                                | Some o => SZ (hash_sx (sx_obj_ws (fst p) wst qkeys o) 1)
+                                                end)
+                                      (with_names (map fst objs) [] (rd_items rd) (length (rd_items rd))));
+                              sx_option (fun e => SZ (err_code e)) (rd_err rd) ])
+              (run_session (multi_ops rows objs stop ladder qkeys muts)))
   | Session ops =>
       SL (map (fun rd => SL [ SL (map (fun it => match it with
                                                  | None => SL [SZ 0]
